@@ -395,7 +395,7 @@ func TestC16(t *testing.T) {
 		fmt.Printf("replayed %s: violations=%d\n", rc, run.Violations())
 		return
 	}
-	dl := vk.NewDeadline(vk.Pick(run, 10*time.Minute, 120*time.Minute))
+	dl := vk.NewDeadline(vk.Pick(run, 10*time.Minute, 45*time.Minute))
 	shapes := []string{"uniform", "fast", "slow", "halted-mid", "halted-tip", "young", "bursty", "slow-then-fast", "fast-then-slow"}
 	stores := []string{"empty", "full", "pruned"}
 	var cases []c16Case
